@@ -27,10 +27,15 @@ from six.moves import range
 default_tuning = tunings.get_tuning("Guitar", "Standard", 6, 1)
 
 
+def _string_names(tuning):
+    """Return the shorthand name of every string (of the first note of a course)."""
+    return [(x[0] if isinstance(x, list) else x).to_shorthand() for x in tuning.tuning]
+
+
 def begin_track(tuning, padding=2):
     """Helper function that builds the first few characters of every bar."""
     # find longest shorthand tuning base
-    names = [x.to_shorthand() for x in tuning.tuning]
+    names = _string_names(tuning)
     basesize = len(max(names)) + 3
 
     # Build result
@@ -444,7 +449,7 @@ def from_Suite(suite, maxwidth=80):
 
 def _get_qsize(tuning, width):
     """Return a reasonable quarter note size for 'tuning' and 'width'."""
-    names = [x.to_shorthand() for x in tuning.tuning]
+    names = _string_names(tuning)
     basesize = len(max(names)) + 3
     barsize = ((width - basesize) - 2) - 1
 
